@@ -24,6 +24,7 @@ package main
 // see c20Oracle below.
 
 import (
+	"encoding/json"
 	"bufio"
 	"bytes"
 	"errors"
@@ -662,6 +663,16 @@ func (s *c20State) opLoad() {
 	case err == nil:
 		if doc := c20Documented(c); doc != "" {
 			s.fail("", "load returned a configuration violating the documented constraint on "+doc)
+		}
+		// what the stored text itself says, read by the harness on a ZERO configuration (plain
+		// encoding/json, no defaults): if that violates a documented constraint — a required
+		// setting is missing or out of range — the stored configuration is invalid and opening
+		// must fail instead of filling the gap from the defaults
+		var own config.Config
+		if json.Unmarshal(s.real(s.canon(cur.manifest)), &own) == nil {
+			if doc := c20Documented(&own); doc != "" {
+				s.fail("", "the stored manifest does not give a valid "+doc+" (read on a zero configuration) but LoadConfigFromManifest accepted it: an invalid stored configuration was completed silently")
+			}
 		}
 		if s.savedText != nil && len(cur.manifest) < len(s.savedText) && bytes.HasPrefix(s.savedText, cur.manifest) {
 			s.fail("", fmt.Sprintf("a manifest truncated to %d of %d bytes loads without error", len(cur.manifest), len(s.savedText)))
